@@ -4,6 +4,9 @@
 def planters():
     try:
         from vf.rulehosts.plant import PLANTERS
-        return list(PLANTERS)
+        from vf.rulehosts.plant_noop import plant_if_scopes
+
+        n = max(2, len(PLANTERS) // 12)  # general idioms that are not hosts of one rule: about 8% of the planted patterns
+        return list(PLANTERS) + [plant_if_scopes] * n
     except ImportError:
         return []
